@@ -56,8 +56,34 @@ def fstring(r):
     return "f'{%s!r:{%s}}'" % (n, name(r))
 
 
+def argmix(r, for_class=False):
+    """an argument list mixing positional / starred / keyword / **kwargs arguments in an order CPython
+    accepts (keyword before starred included), with string literals in every kind of position"""
+    for _ in range(20):
+        items = []
+        for _ in range(r.randint(1, 5)):
+            k = r.random()
+            if k < .3:
+                items.append(r.choice([name(r), strlit(r, False), "B", "1"]))
+            elif k < .5:
+                items.append("*" + r.choice(["bases", '[C, "s"][:1]', "(a, 'x')", name(r)]))
+            elif k < .85:
+                items.append("%s=%s" % (r.choice(["tag", "metaclass", "k", "sep"]), r.choice(["'t'", "M", strlit(r, False), 'f"{x}"', "1"])))
+            else:
+                items.append("**" + r.choice(["kw", "{'a': \"b\"}", "dict(z='q')"]))
+        body = ", ".join(items)
+        if r.random() < .25:
+            body = body.replace(", ", ",\n    ", 1)
+        src = ("class A(%s): pass\n" if for_class else "f(%s)\n") % body
+        if compiles(src):
+            return body
+    return "B, tag='t', *mixins"
+
+
 def expr(r, d=0):
     k = r.random()
+    if d <= 1 and k > .95:
+        return "%s(%s)" % (name(r), argmix(r))
     if d > 2 or k < .3:
         return name(r) + r.choice(["", "", ".attr", ".é"])
     if k < .4:
@@ -192,7 +218,8 @@ def compound(r, d, ind):
         return hdr + body(r, d, ind2)
     if k < .52:
         hdr = [ind + x for x in decorator(r).split("\n")] if r.random() < .4 else []
-        return hdr + [ind + "class %s%s%s:" % (n.capitalize() if n.isascii() else "K", r.choice(["", "[T]"]), r.choice(["", "(Base)", "(B, metaclass=M)"]))] + body(r, d, ind2)
+        bases = r.choice(["", "(Base)", "(B, metaclass=M)", "(metaclass=M, *bases)", "(%s)" % argmix(r, True).replace("\n", "\n" + ind), "(%s)" % argmix(r, True).replace("\n", "\n" + ind)])
+        return hdr + [ind + "class %s%s%s:" % (n.capitalize() if n.isascii() else "K", r.choice(["", "[T]"]), bases)] + body(r, d, ind2)
     if k < .62:
         return [ind + "try:"] + body(r, d, ind2) + [ind + r.choice(["except E as e:", "except (A, B):", "finally:"])] + body(r, d, ind2)
     if k < .7:
@@ -271,7 +298,7 @@ def prologue(r):
     elif k < .38:
         out += ["", ""]
     if r.random() < .35:
-        out += [r.choice(['"""doc"""', '"""doc\n# not comment\n"""', "'''é\n\n'''", 'r"""raw"""', "'one'", '"a" "b"'])]
+        out += [r.choice(['""', "\'\'\'\'\'\'", '"" ""', '"""doc"""', '"""doc\n# not comment\n"""', "'''é\n\n'''", 'r"""raw"""', "'one'", '"a" "b"'])]
         if r.random() < .3:
             out += [r.choice(['"second"', comment(r), ""])]
     return out
